@@ -13,7 +13,7 @@ use std::sync::atomic::{AtomicU64, Ordering};
 use std::sync::{Arc, Mutex};
 
 /// what is typed at the "Key name:" prompt (the tool trims it)
-const NAMES: [&str; 7] = ["k1", "second key", "Zo\u{eb}", "x-k1", "  padded \u{a0}", "team=ops", "team=dev"];
+const NAMES: [&str; 8] = ["k1", "second key", "Zo\u{eb}", "x-k1", "  padded \u{a0}", "team=ops", "team=dev", "K1"];
 const PASSWORDS: [&str; 2] = ["", "p\u{e4}ss w"];
 
 /// (initial file state, then (name index, password index) per key generation)
@@ -35,6 +35,7 @@ pub fn initial_states(seed: u64) -> Vec<(&'static str, Option<Vec<u8>>)> {
         ("keyring-with-comments-and-blank-lines", Some(format!("# my keys\n\n{}\n# bob has no private key\n\n{}\n\n\n", a.entry(true), b.entry(false)).into_bytes())),
         ("keyring-with-non-ascii-comment-no-final-newline", Some(format!("# Schl\u{fc}ssel f\u{fc}r Zo\u{eb} \u{1F511}\n{}\n# \u{e9}nd", a.entry(true)).into_bytes())),
         ("keyring-with-crlf", Some(two.replace('\n', "\r\n").into_bytes())),
+        ("keyring-larger-than-8KiB", Some(format!("{}\n{}\n{}", "# long comment line that pads the keyring file beyond any small buffer size ....\n".repeat(130), a.entry(true), b.entry(false)).into_bytes())),
     ]
 }
 
@@ -151,6 +152,10 @@ impl Model for M {
     }
     fn actions(&self, s: &Hist, a: &mut Vec<(u8, u8)>) {
         if s.gens.len() >= self.0.max_gens {
+            return;
+        }
+        // quick tier: second-level histories only from four of the initial states (all of them in thorough)
+        if self.0.max_gens == 2 && s.gens.len() == 1 && ![0usize, 3, 5, 7].contains(&(s.init as usize)) {
             return;
         }
         for n in 0..NAMES.len() as u8 {
